@@ -42,7 +42,7 @@ def stall_runs(eng, rep, topo, victim, n, steps, tag):
         pipe = SimPipeline(topo)
         try:
             pipe.start()
-            at = rng.randrange(5, 200)
+            at = rng.randrange(5, 200) if tag != 'slow-producer' else rng.randrange(300, 900)
             run_schedule(pipe, rng, at, p_timeout=0.02, quiet=10 ** 9)
             # "stops taking frames" presupposes a consumer that is taking frames: a task frozen before its connection
             # handshake completed is not yet a consumer of the publisher (the model's `ahead` counts only publishes that
@@ -117,7 +117,9 @@ def scenarios(quick):
                (T.tee(maxseq=40), 'B', 6 if quick else 100, 2000, 'one-of-two'),
                (T.chain3(maxseq=40), 'K', 6 if quick else 100, 2000, 'behind-relay'),
                (T.chain3(maxseq=40), 'A', 6 if quick else 100, 2000, 'relay'),
-               (T.chain3(maxseq=40, slow=True), 'K', 4 if quick else 60, 2500, 'slow-relay')],
+               (T.chain3(maxseq=40, slow=True), 'K', 4 if quick else 60, 2500, 'slow-relay'),
+               # a producer slower than the request interval: the consumer's periodic re-requests must be collapsed, not queued
+               (T.chain2(maxseq=60, slow_origin=True), 'K', 6 if quick else 60, 3000, 'slow-producer')],
     )
 
 
